@@ -239,6 +239,9 @@ NaturalPool == <<
 TextPool == <<
   P("short", "e"), P("long", "enufenufenufenufenufenufenufenufenuf"), P("underscore", "neuf_"), P("upper", "ENUF"),
   P("mbfirst", MB \o "nuf"), P("mbfour", MB \o MB), P("mbeight", "ne" \o MB \o "_deg"), P("mbmid", "en" \o MB \o "f_deg"),
+  \* four / eight CHARACTERS with byte 4 inside a multi-byte character (a length test on characters followed by
+  \* a slice on bytes)
+  P("mbat4", "neu" \o MB), P("mbat4u", "neu" \o MB \o "_deg"), P("mb3at4", "ne%u20ac;f"), P("mb3at4u", "ne%u20ac;f_gon"),
   P("pass", "pass"), P("unit", "us-ft"), P("notperm", "eeee"), P("descr8", "wsdp_gon")
 >>
 GridsPool == <<
